@@ -79,7 +79,9 @@ func genSubset(c *Chooser, xs []string, nonEmpty bool) []string {
 }
 
 func genService(c *Chooser, schema string) ServicePlan {
-	sp := ServicePlan{Schema: schema}
+	// declared frame lengths up to the limit are allocated before the bytes arrive: keep the limit modest so that
+	// hostile lengths cost kilobytes, not gigabytes (the default limit is 4 GiB)
+	sp := ServicePlan{Schema: schema, MaxMsg: Pick(c, uint32(1<<20), 1<<20, 4<<20, 1<<17)}
 	if c.Prob(0.8) {
 		sp.Protocols = genSubset(c, allTargetProtocols, true)
 	}
